@@ -53,7 +53,7 @@ def groups(tier, seed):
             c = _clone(g, "host", {"KPAR": k, "KMAXBUILD": 8 if k in (0, 9) else max(k, 2)}, "k%d" % k)
             c.timeout = 1500
             if k in (0, 9):   # the code book for k = 8 is built by the real m4ri_build_code: 256-iteration loops
-                c.unwindset = dict(c.unwindset, **{"m4ri_build_code.0": 258, "m4ri_build_code.1": 10, "m4ri_build_code.2": 258})
+                c.unwindset = dict(c.unwindset, **{"m4ri_build_code.0": 258, "m4ri_build_code.1": 258, "m4ri_build_code.2": 258})
             gs.append(c)
         gs.append(_clone(g, "scalar"))
     mu = [g for g in C01.mul_groups(tier) if g.gid.startswith("B.mzd_mul.3x30x20.null")]
